@@ -1159,9 +1159,10 @@ def expr_fn(
             if ret == math.floor(ret):
                 return str(int(ret))
         return str(ret)
-    except (ArithmeticError, ValueError, TypeError):
+    except (ArithmeticError, ValueError, TypeError, RecursionError):
         # Domain, overflow and type errors of the math functions
         # (ln 0, acos 2, 10^1000, exp 1000, x round 1.5, nan/inf results)
+        # and expressions nested too deeply for the recursive evaluator
         return (
             '<strong class="error">Expression error: invalid value</strong>'
         )
